@@ -4,6 +4,7 @@
 From Coq Require Import ExtrOcamlBasic.
 From Sakura.Model Require Import Base Cursor Length Event Writer Song Token LexCore RunCore Compile.
 From Sakura.Spec Require Import LenSpec SmfSpec TrackSpec NoteSem.
+From Sakura.Proofs Require Import NoteSimDefs.
 Extraction Language OCaml.
 Extraction "../ocaml/core_model.ml"
   Cursor.get_int Cursor.get_note_length
@@ -13,4 +14,5 @@ Extraction "../ocaml/core_model.ml"
   Writer.generate Writer.generate_track Writer.normalize_and_sort Writer.push_delta Event.ev_sysex
   SmfSpec.vlq_decode SmfSpec.decode_track SmfSpec.parse_file SmfSpec.container_ok
   TrackSpec.wire TrackSpec.event_ok TrackSpec.deltas_ok TrackSpec.EOTmsg TrackSpec.abs_ticks
-  LenSpec.print LenSpec.denote LenSpec.expr_wf LenSpec.dpart LenSpec.print_part LenSpec.part_wf.
+  LenSpec.print LenSpec.denote LenSpec.expr_wf LenSpec.dpart LenSpec.print_part LenSpec.part_wf
+  NoteSimDefs.top_tokens NoteSimDefs.lex_of_prog NoteSimDefs.wf_prog NoteSimDefs.lexable_prog.
